@@ -3,6 +3,8 @@ package minibus
 import (
 	"context"
 	"sync"
+
+	"github.com/smart-core-os/sc-golang/internal/verifhook"
 )
 
 type Bus struct {
@@ -18,11 +20,13 @@ func (b *Bus) Send(ctx context.Context, event any) (ok bool) {
 		listeners = append(listeners, l)
 	}
 	b.listenerM.RUnlock()
+	verifhook.At("bus.send.afterSnapshot", b, event)
 
 	needGc := false
 
 	// send the event to each listener that's not closed
 	for _, l := range listeners {
+		verifhook.At("bus.send.beforeListener", b, l)
 		ok, active := l.send(ctx, event)
 		if !ok {
 			return false
@@ -68,6 +72,7 @@ func (b *Bus) Listen(ctx context.Context) <-chan any {
 	}()
 
 	// store the listener
+	verifhook.At("bus.listen.beforeRegister", b, l)
 	b.listenerM.Lock()
 	defer b.listenerM.Unlock()
 	b.listeners = append(b.listeners, l)
@@ -102,6 +107,7 @@ func (l *listener) send(ctx context.Context, event any) (ok bool, active bool) {
 }
 
 func (l *listener) stop() {
+	verifhook.At("bus.listener.stop", l, nil)
 	l.m.Lock()
 	defer l.m.Unlock()
 	if l.ch != nil {
